@@ -76,6 +76,7 @@ type job struct {
 	Par         int        `json:"par"`
 	TraceDir    string     `json:"trace_dir"`
 	DumpDir     string     `json:"dump_dir"` // write every file's bytes to <dump_dir>/<id>.rac
+	SeqBudgetMs int        `json:"seq_budget_ms"`
 	Files       []fileDesc `json:"files"`
 	ScriptsPath string     `json:"scripts_path"`
 	Conc        []int      `json:"conc"`
@@ -116,6 +117,7 @@ type builtFile struct {
 	chunks  [][2]int64
 	codecs  []int  // per chunk, as rac.ChunkReader reports it: 0 Zeroes (Short or Long), 1 Zlib, 2 LZ4, 3 Zstandard, -1 other
 	crErr   string // rac.ChunkReader's error while listing the chunks ("" = listed to io.EOF)
+	cranges [][6]int64 // per chunk (first 2000): CPrimary, CSecondary, CTertiary as rac.ChunkReader reports them
 }
 
 type result struct {
@@ -131,11 +133,13 @@ type result struct {
 	Traces          []string            `json:"traces"`
 	CurStates       map[string]int64    `json:"cursor_states"` // calls made per (op, cursor state) label
 	ByConc          map[string]int64    `json:"by_conc"`
+	Aborted         bool                `json:"aborted"` // sequential replay stopped at a call that does not return
 }
 
 type fileInfo struct {
 	Chunks   [][2]int64 `json:"chunks"`   // what rac.ChunkReader lists
 	Codecs   []int      `json:"codecs"`   // per listed chunk
+	CRanges  [][6]int64 `json:"cranges"`  // per listed chunk (first 2000): CPrimary, CSecondary, CTertiary
 	CRErr    string     `json:"cr_err"`   // ChunkReader error while listing, "" if none
 	Explicit []int      `json:"explicit"` // per listed chunk: bytes of the decompressed data before its trailing zeroes
 	CSize    int        `json:"csize"`
@@ -176,13 +180,26 @@ func buildFile(d fileDesc) (*builtFile, error) {
 	// What rac.ChunkReader makes of it.  An error here is recorded, not fatal:
 	// whether the file is valid is decided independently (walker + TLC).
 	cr := &rac.ChunkReader{ReadSeeker: bytes.NewReader(bf.encoded), CompressedSize: int64(len(bf.encoded))}
+	bf.chunks, bf.codecs, bf.cranges = [][2]int64{}, []int{}, [][6]int64{}
 	func() {
 		defer func() {
 			if e := recover(); e != nil {
 				bf.crErr = fmt.Sprintf("panic: %v", e)
 			}
 		}()
-		for len(bf.chunks) <= 1<<22 {
+		// the number of chunks the description stands for bounds the listing
+		want := 0
+		if d.Kind == "" && d.DChunk > 0 {
+			want = (d.Size + d.DChunk - 1) / d.DChunk
+		}
+		for _, r := range d.Runs {
+			want += r[0]
+		}
+		for {
+			if len(bf.chunks) > want+8 {
+				bf.crErr = fmt.Sprintf("NextChunk keeps listing chunks: %d so far, the file has %d (listing stopped)", len(bf.chunks), want)
+				break
+			}
 			c, err := cr.NextChunk()
 			if err == io.EOF {
 				break
@@ -192,6 +209,9 @@ func buildFile(d fileDesc) (*builtFile, error) {
 				break
 			}
 			bf.chunks = append(bf.chunks, [2]int64{c.DRange[0], c.DRange[1]})
+			if len(bf.cranges) < 2000 {
+				bf.cranges = append(bf.cranges, [6]int64{c.CPrimary[0], c.CPrimary[1], c.CSecondary[0], c.CSecondary[1], c.CTertiary[0], c.CTertiary[1]})
+			}
 			k := -1
 			switch c.Codec {
 			case rac.CodecZeroes, rac.Codec(1 << 63):
@@ -832,7 +852,7 @@ func main() {
 			os.Exit(3)
 		}
 		files[d.ID] = bf
-		fi := fileInfo{Chunks: bf.chunks, Codecs: bf.codecs, CRErr: bf.crErr, CSize: len(bf.encoded), DSize: len(bf.data)}
+		fi := fileInfo{Chunks: bf.chunks, Codecs: bf.codecs, CRanges: bf.cranges, CRErr: bf.crErr, CSize: len(bf.encoded), DSize: len(bf.data), Explicit: []int{}}
 		for _, c := range bf.chunks {
 			e := -1 // a range outside the data: the list is wrong anyway
 			if c[0] >= 0 && c[0] <= c[1] && c[1] <= int64(len(bf.data)) {
@@ -882,12 +902,17 @@ func main() {
 	var mu sync.Mutex
 	for _, conc := range j.Conc {
 		if conc <= 0 {
-			// independent scripts, independent readers: run them in parallel
+			// independent scripts, independent readers: run them in parallel.  A script
+			// that is still inside lib/rac after SeqBudgetMs (default 120 s; the scripts take
+			// milliseconds) is a call that does not return: it is reported, and since a
+			// spinning goroutine cannot be stopped the run ends there ("aborted").
 			var wg sync.WaitGroup
 			next := int64(-1)
+			started := make([]int64, j.Par) // per worker: UnixNano when its current script began, 0 = idle
+			current := make([]int64, j.Par)
 			for w := 0; w < j.Par; w++ {
 				wg.Add(1)
-				go func() {
+				go func(w int) {
 					defer wg.Done()
 					cs := map[string]int64{}
 					for {
@@ -895,16 +920,58 @@ func main() {
 						if k >= int64(len(scripts)) {
 							break
 						}
+						atomic.StoreInt64(&current[w], k)
+						atomic.StoreInt64(&started[w], time.Now().UnixNano())
 						runSequential(files[scripts[k].F], scripts[k], res, &mu, cs)
+						atomic.StoreInt64(&started[w], 0)
 					}
 					mu.Lock()
 					for k, v := range cs {
 						res.CurStates[k] += v
 					}
 					mu.Unlock()
-				}()
+				}(w)
 			}
-			wg.Wait()
+			done := make(chan struct{})
+			go func() { wg.Wait(); close(done) }()
+			budget := time.Duration(j.SeqBudgetMs) * time.Millisecond
+			if budget <= 0 {
+				budget = 120 * time.Second
+			}
+		watch:
+			for {
+				select {
+				case <-done:
+					break watch
+				case <-time.After(500 * time.Millisecond):
+				}
+				for w := range started {
+					t0 := atomic.LoadInt64(&started[w])
+					if t0 == 0 || time.Since(time.Unix(0, t0)) < budget {
+						continue
+					}
+					s := scripts[atomic.LoadInt64(&current[w])]
+					dump := allStacks()
+					if !strings.Contains(dump, "wuffs/lib/rac") {
+						continue // not inside the library (the harness's own comparison of a large read)
+					}
+					mu.Lock()
+					res.Failures = append(res.Failures, failure{Kind: "hang", File: s.F, Conc: 0, ScriptID: s.ID, Call: -1, Script: s.H,
+						What:  fmt.Sprintf("the script has not finished after %v on the sequential reader: a call into lib/rac does not return", budget),
+						Stack: trimDump(dump)})
+					snap := result{Hook: res.Hook, Files: res.Files, ScriptsRun: atomic.LoadInt64(&res.ScriptsRun), CallsRun: atomic.LoadInt64(&res.CallsRun),
+						CallsChecked: atomic.LoadInt64(&res.CallsChecked), BytesChecked: atomic.LoadInt64(&res.BytesChecked), Failures: res.Failures,
+						Traces: res.Traces, CurStates: res.CurStates, ByConc: res.ByConc, Aborted: true}
+					ob, _ := json.Marshal(snap)
+					mu.Unlock()
+					if *outPath == "" {
+						os.Stdout.Write(ob)
+					} else {
+						os.WriteFile(*outPath, ob, 0o644)
+					}
+					os.Exit(0)
+				}
+			}
 			res.ByConc["0"] += int64(len(scripts))
 			continue
 		}
